@@ -17,8 +17,9 @@
 (* the decoders below do the same position arithmetic as the Go code does  *)
 (* in bytes (length fields of extension fields include their header,       *)
 (* length fields of the cookie TLVs do not, short copies are zero filled,  *)
-(* slicing beyond the buffer panics, a length of 0 makes DecodePacket       *)
-(* loop).  AEAD is symbolic and perfect: Seal is a constructor, Open       *)
+(* and - in the code before the hardening, switch Hardened - slicing      *)
+(* beyond the buffer panics and a length of 0 makes DecodePacket loop).   *)
+(*  AEAD is symbolic and perfect: Seal is a constructor, Open       *)
 (* succeeds iff the ciphertext is exactly what Seal produced for the same  *)
 (* key, nonce and associated data.  (AES-SIV-CMAC itself is trusted.)      *)
 (*                                                                         *)
@@ -37,6 +38,9 @@ CONSTANTS
   UidChecked,                \* TRUE = as written; FALSE = fault switch (ProcessResponse without the uid comparison)
   AdWhole,                   \* TRUE = as written (associated data buf[:pos] in pack and b[:Auth.pos] in authenticate);
                              \* FALSE = fault switch (both sides use the NTP header only)
+  Hardened,                  \* TRUE = the code as it is now: extension Length < 4, nonce length # 16, uid length out of
+                             \* range and out-of-bounds cookie TLVs are decode ERRORS; FALSE = the code before those
+                             \* repairs (C08's findings): endless loop, AEAD panic, index panics
   StopAtAuth,                \* TRUE = as written (DecodePacket's loop ends at the authenticator);
                              \* FALSE = fault switch (fields after the authenticator are parsed too)
   CtLenExact,                \* TRUE = as written (make(cipherTextLen), zero filled); FALSE = fault switch (clamped to what is left)
@@ -57,6 +61,7 @@ NtpCells   == 2                 \* 48 bytes NTP header
 UidCells   == 2                 \* 32 bytes unique identifier
 NonceCells == 1                 \* 16 bytes, what miscreant.NewAEAD(.., 16) insists on
 MinField   == 4                 \* DecodePacket / authenticate: `len(b)-pos >= 28`
+MaxUidCells == 10 * UidCells   \* UniqueIdentifier.unpack: Length-4 <= MaxPacketLen/4 = 320 bytes
 JunkLen    == 5                 \* arbitrary bytes read as a length after the walk lost alignment
 
 EXT_UID == 1  EXT_COOKIE == 2  EXT_PH == 3  EXT_AUTH == 4      \* 0x104 0x204 0x304 0x404
@@ -128,25 +133,29 @@ CookieLen == 8 + 10
 \* The decoding loop shared by ServerCookie.Decode and EncryptedServerCookie.Decode:
 \*   for pos < len(b) { t, len := ...; scalar: Uint16(b[pos+4:]); slices: b[pos+4 : pos+4+len]; pos += 4+len }
 \* tS: the scalar type, tA / tB: the two slice types.
+\* chk: the bounds-checked variant (EncryptedServerCookie.Decode since its repair): a TLV that does not fit
+\* is an error; the unchecked variant (ServerCookie.Decode, and both before the repair) indexes and panics.
 Tlv0 == [res |-> "ok", s |-> Z, a |-> << >>, b |-> << >>, hs |-> FALSE, ha |-> FALSE, hb |-> FALSE]
-RECURSIVE TlvWalk(_, _, _, _, _, _)
-TlvWalk(b, pos, acc, tS, tA, tB) ==
+RECURSIVE TlvWalk(_, _, _, _, _, _, _)
+TlvWalk(b, pos, acc, tS, tA, tB, chk) ==
   IF pos >= Len(b)
   THEN IF pos # Len(b) \/ ~(acc.hs /\ acc.ha /\ acc.hb) THEN [acc EXCEPT !.res = "rejected"] ELSE acc
-  ELSE IF pos + 2 > Len(b) THEN [acc EXCEPT !.res = "panic"]          \* Uint16 beyond the slice
-  ELSE IF b[pos + 2].t \notin {"L", "Z"} THEN [acc EXCEPT !.res = "junk"]  \* the walk lost alignment: see Expand
+  ELSE IF pos + 2 > Len(b) THEN [acc EXCEPT !.res = IF chk THEN "rejected" ELSE "panic"]     \* header beyond the slice
+  ELSE IF b[pos + 2].t \notin {"L", "Z"}                                  \* the walk lost alignment: see Expand
+       THEN [acc EXCEPT !.res = IF chk THEN "rejected" ELSE "junk"]
   ELSE LET t == TypeOf(b[pos + 1])
            n == LenOf(b[pos + 2])
-       IN IF t = tS
+       IN IF chk /\ (pos + 2 + n > Len(b) \/ (t = tS /\ n < 1)) THEN [acc EXCEPT !.res = "rejected"]
+          ELSE IF t = tS
           THEN IF pos + 3 > Len(b) THEN [acc EXCEPT !.res = "panic"]
-               ELSE TlvWalk(b, pos + 2 + n, [acc EXCEPT !.s = b[pos + 3], !.hs = TRUE], tS, tA, tB)
+               ELSE TlvWalk(b, pos + 2 + n, [acc EXCEPT !.s = b[pos + 3], !.hs = TRUE], tS, tA, tB, chk)
           ELSE IF t \in {tA, tB}
           THEN IF pos + 2 + n > Len(b) THEN [acc EXCEPT !.res = "panic"]   \* slice bounds out of range
                ELSE LET v == SubSeq(b, pos + 3, pos + 2 + n)
                     IN TlvWalk(b, pos + 2 + n,
                                IF t = tA THEN [acc EXCEPT !.a = v, !.ha = TRUE] ELSE [acc EXCEPT !.b = v, !.hb = TRUE],
-                               tS, tA, tB)
-          ELSE TlvWalk(b, pos + 2 + n, acc, tS, tA, tB)
+                               tS, tA, tB, chk)
+          ELSE TlvWalk(b, pos + 2 + n, acc, tS, tA, tB, chk)
 
 IdOf(c)  == IF c.t = "KID" THEN c.v ELSE 0 - 1
 KeyOf(s) == IF Len(s) = 1 /\ s[1].t = "KEY" THEN s[1].v ELSE 0 - 1
@@ -156,15 +165,15 @@ AlgOf(c) == IF c.t = "ALG" THEN c.v ELSE 0 - 1
 \* result: res in {"ok","rejected","panic","junk"}, key = the provider key used, sc = the decoded ServerCookie
 NoSc == [algo |-> 0 - 1, s2c |-> 0 - 1, c2s |-> 0 - 1]
 OpenCookie(cookie, provider) ==
-  LET d == TlvWalk(cookie, 0, Tlv0, CK_KID, CK_NONCE, CK_CT)
+  LET d == TlvWalk(cookie, 0, Tlv0, CK_KID, CK_NONCE, CK_CT, Hardened)
       fail(r) == [res |-> r, key |-> 0, sc |-> NoSc]
   IN IF d.res # "ok" THEN fail(d.res)
      ELSE IF IdOf(d.s) \notin DOMAIN provider THEN fail("rejected")
      ELSE LET key == provider[IdOf(d.s)] IN
-          IF Len(d.a) # NonceCells THEN fail("panic")                      \* miscreant: incorrect nonce length
+          IF Len(d.a) # NonceCells THEN fail(IF Hardened THEN "rejected" ELSE "panic")   \* miscreant: incorrect nonce length
           ELSE LET o == Open(key, d.a, << >>, d.b) IN
                IF ~o.ok THEN fail("rejected")
-               ELSE LET p == TlvWalk(o.pt, 0, Tlv0, CK_ALGO, CK_S2C, CK_C2S) IN
+               ELSE LET p == TlvWalk(o.pt, 0, Tlv0, CK_ALGO, CK_S2C, CK_C2S, FALSE) IN
                     IF p.res # "ok" THEN fail(p.res)
                     ELSE [res |-> "ok", key |-> key,
                           sc |-> [algo |-> AlgOf(p.s), s2c |-> KeyOf(p.a), c2s |-> KeyOf(p.b)]]
@@ -198,7 +207,7 @@ EncodeResp(uid, cookies, key, an) ==
 \* DecodePacket: walk the extension fields after the NTP header until an authenticator is found
 ValueLen(n, b) == IF n >= 2 THEN n - 2 ELSE Len(b) + 3 + n       \* uint16(Length - 4) wraps for Length < 4
 Dec0 == [uid |-> << >>, hasU |-> FALSE, cookies |-> << >>, nph |-> 0, hasA |-> FALSE, apos |-> 0,
-         nonce |-> << >>, ct |-> << >>, hang |-> FALSE]
+         nonce |-> << >>, ct |-> << >>, hang |-> FALSE, err |-> FALSE]
 RECURSIVE DecWalk(_, _, _)
 DecWalk(b, pos, a) ==
   IF (StopAtAuth /\ a.hasA) \/ Len(b) - pos < MinField THEN a
@@ -218,7 +227,9 @@ DecWalk(b, pos, a) ==
                                    !.nonce = Take(b, pos + 4, nl),
                                    !.ct = Take(b, pos + 4 + copied, cl2)]
                  ELSE a
-       IN IF n = 0 /\ ~(StopAtAuth /\ a1.hasA) THEN [a1 EXCEPT !.hang = TRUE]        \* pos += Length - 4 undoes pos += 4
+       IN IF Hardened /\ (n < 2 \/ (ty = EXT_UID /\ (n < 2 + UidCells \/ n - 2 > MaxUidCells)))
+          THEN [a EXCEPT !.err = TRUE]             \* errUnexpectedExtHdrLength / errShortUniqueID / errLongUniqueID
+          ELSE IF n = 0 /\ ~(StopAtAuth /\ a1.hasA) THEN [a1 EXCEPT !.hang = TRUE]        \* pos += Length - 4 undoes pos += 4
           ELSE DecWalk(b, pos + n, a1)
 
 \* Packet.authenticate
@@ -229,7 +240,7 @@ PtCookies(pt, pos, acc) ==
            acc1 == IF TypeOf(pt[pos + 1]) = EXT_COOKIE THEN Append(acc, Take(pt, pos + 2, ValueLen(n, pt))) ELSE acc
        IN IF n = 0 THEN acc1 ELSE PtCookies(pt, pos + n, acc1)
 Authenticate(b, key, d) ==
-  IF Len(d.nonce) # NonceCells THEN [res |-> "panic", cookies |-> << >>]
+  IF Len(d.nonce) # NonceCells THEN [res |-> IF Hardened THEN "rejected" ELSE "panic", cookies |-> << >>]
   ELSE LET o == Open(key, d.nonce, AdOf(SubSeq(b, 1, d.apos)), d.ct)
        IN IF o.ok THEN [res |-> "accepted", cookies |-> PtCookies(o.pt, 0, << >>)]
           ELSE [res |-> "rejected", cookies |-> << >>]
@@ -246,7 +257,8 @@ Rej(out) == Rcv(out, FALSE, 0, 0, 0, TRUE)
 \* server_ip.go: DecodePacket, FirstCookie, Decode, provider.Get, Decrypt, ProcessRequest(buf, serverCookie.C2S)
 Server(b, provider, n) ==
   LET d == DecWalk(b, NtpCells, Dec0) IN
-  IF d.hang THEN Rej("hang")
+  IF d.err THEN Rej("rejected")
+  ELSE IF d.hang THEN Rej("hang")
   ELSE IF ~d.hasU \/ ~d.hasA THEN Rej("rejected")
   ELSE IF d.cookies = << >> THEN Rej("rejected")
   ELSE LET c == OpenCookie(d.cookies[1], provider) IN
@@ -257,7 +269,8 @@ Server(b, provider, n) ==
 \* ProcessResponse stores pkt.Cookies: whatever DecodePacket collected, then what authenticate decrypted
 Client(b, key, reqid, genuine) ==
   LET d == DecWalk(b, NtpCells, Dec0) IN
-  IF d.hang THEN Rej("hang")
+  IF d.err THEN Rej("rejected")
+  ELSE IF d.hang THEN Rej("hang")
   ELSE IF ~d.hasU \/ ~d.hasA THEN Rej("rejected")
   ELSE IF UidChecked /\ d.uid # reqid THEN Rej("rejected")
   ELSE LET r == Authenticate(b, key, d)
